@@ -23,6 +23,11 @@ def run(rep, tier):
     for c, o in zip(cases, obs):
         v = c["v"]
         vs = vlib.cp_to_str(v["id"])
+        if c.get("bare") and "ctor" in o:
+            # an identifier that is only a sigil was accepted by the identifier parser and a URI built from it
+            r = o["ctor"]
+            if not (r["parse_ok"] and r["same_value"]):
+                rep.violation("uri/%s/ctor/identifier-of-sigil-only-does-not-round-trip" % v["form"], {"value": v, "id": vs, "event": vlib.cp_to_str(v["ev"]), "text": vlib.cp_to_str(r["text"])})
         if not c["ok"]:
             continue
         if v["via"] or v["action"] != "none" or any(ch in vs for ch in "/%?#+&= ") or any(x > 127 for x in v["id"] + v["ev"]):
